@@ -240,3 +240,87 @@ def tiny_base_rate_grid_opinion(rng, n, den, e):
         a.insert(k, t)
         if all(x > 0 for x in a):
             return (b, u, a)
+
+
+# ------------------------------------------------------------ exact-rational operands (element type "q")
+# Operands for the exact-rational instantiation of the crate's generic code: exactly well-formed (sums are exactly
+# 1), with entries on both sides of every tolerance the code tests (machine epsilon eps = 2^-52 of that type) and
+# non-dyadic values (thirds, sevenths) no float stream can contain.
+
+QEPS = Fraction(1, 1 << 52)
+
+
+def q_small(rng):
+    return rng.choice([Fraction(0), QEPS / 2, QEPS, QEPS * 3 / 2, QEPS * 2, QEPS * 3, QEPS * 4, QEPS * 5, QEPS * 9,
+                       Fraction(1, 1 << 40), Fraction(1, 1 << 30), Fraction(1, 10 ** 6)])
+
+
+def q_unit(rng):
+    """a number in [0,1]: lattice points around 0 and 1, or a small-denominator rational"""
+    r = rng.below(10)
+    if r < 2:
+        return q_small(rng)
+    if r < 4:
+        return 1 - q_small(rng)
+    den = rng.choice([2, 3, 4, 5, 7, 8, 12, 16])
+    return Fraction(rng.below(den + 1), den)
+
+
+def q_parts(rng, n, total, small_bias=3):
+    """n non-negative rationals summing exactly to total (>= 0); some entries tiny or zero"""
+    if n == 0:
+        return []
+    for _ in range(100):
+        vals = []
+        for _ in range(n):
+            if rng.below(10) < small_bias:
+                vals.append(q_small(rng))
+            else:
+                den = rng.choice([3, 5, 7, 8, 12])
+                vals.append(Fraction(1 + rng.below(den), den))
+        i = rng.below(n)
+        rest = sum(vals) - vals[i]
+        small = [j for j in range(n) if vals[j] < Fraction(1, 1000)]
+        big = [j for j in range(n) if j not in small]
+        s_small = sum(vals[j] for j in small)
+        if total < s_small:
+            continue
+        if not big:
+            # all entries tiny: put the remainder on one of them
+            vals[i] = total - rest
+            if vals[i] >= 0:
+                return vals
+            continue
+        s_big = sum(vals[j] for j in big)
+        scale = (total - s_small) / s_big
+        for j in big:
+            vals[j] *= scale
+        assert sum(vals) == total
+        return vals
+    return [total] + [Fraction(0)] * (n - 1)
+
+
+def q_simplex(rng, n, kind=None):
+    if kind is None:
+        kind = rng.choice(["part", "part", "part", "lat", "lat", "vac", "dog"])
+    if kind == "vac":
+        return ([Fraction(0)] * n, Fraction(1))
+    if kind == "dog":
+        u = Fraction(0)
+    elif kind == "lat":
+        u = rng.choice([q_small(rng), 1 - q_small(rng)])
+    else:
+        u = Fraction(1 + rng.below(11), 12)
+    return (q_parts(rng, n, 1 - u), u)
+
+
+def q_dist(rng, n, positive=False):
+    while True:
+        a = q_parts(rng, n, Fraction(1), small_bias=0 if positive else 3)
+        if not positive or all(x > 0 for x in a):
+            return a
+
+
+def q_opinion(rng, n, kind=None, positive=False):
+    b, u = q_simplex(rng, n, kind)
+    return (b, u, q_dist(rng, n, positive))
